@@ -42,3 +42,10 @@ pub fn slice_copy_within<T: Copy>(s: &mut [T], src_start: usize, src_end: usize,
         forall|i: int| 0 <= i < old(s)@.len() ==> #[trigger] final(s)@[i] ==
             (if dest as int <= i < dest as int + (src_end - src_start) { old(s)@[src_start as int + (i - dest as int)] } else { old(s)@[i] })
 { s.copy_within(src_start..src_end, dest) }
+
+// isize::abs / isize::signum (WoodiesCCI's bar counter)
+pub assume_specification[ isize::abs ](x: isize) -> (r: isize)
+	requires x != isize::MIN
+	ensures r as int == (if x < 0 { -(x as int) } else { x as int });
+pub assume_specification[ isize::signum ](x: isize) -> (r: isize)
+	ensures r as int == (if x > 0 { 1int } else if x < 0 { -1int } else { 0int });
